@@ -221,7 +221,9 @@ func resolveComputedFields(env *Environment, errorSink *validation.ErrorSink) *E
 			}
 
 			if t.Target == nil {
-				for _, variable := range context.Variables {
+				// the innermost declaration of a name is the one in scope
+				for i := len(context.Variables) - 1; i >= 0; i-- {
+					variable := context.Variables[i]
 					if variable.Identifier == t.Member {
 						t.ResolvedType = variable.Type
 						t.Kind = MemberAccessVariable
